@@ -95,6 +95,24 @@ def run_case(case):
                 viol.append({"mech": "C17/reported-evaluation-count-wrong-after-failing-call", "detail": f"{where}: likelihood raised at its call {k}; reported {reported_f}, asked for {pf.asked_rows} points in {pf.n_like_calls} calls"})
         elif exc is not None and not isinstance(exc, boundary.DegenerateWorkload):
             raise exc
+    # a second, fresh run on the very same sampler object (sampler.sample(...) called again by a user who keeps the sampler):
+    # the figure must be the number of points asked for - since the sampler was made, or in the latest run - nothing else
+    if cfg["sampler"] in ("smc", "emcee_smc") and "run" in out:
+        from .. import recorded as _rec
+
+        rows_before = out["probe"].like_rows
+        again = _rec.record_again(out["run"], rng=np.random.default_rng(int(g.integers(2**31))))
+        if again.exc is None:
+            rows_total = out["probe"].like_rows
+            rep2 = out["aspire"].n_likelihood_evaluations
+            counters["counts_compared_on_a_reused_sampler"] += 1
+            if rep2 not in (rows_total, rows_total - rows_before):
+                viol.append({"mech": "C17/reported-evaluation-count-wrong-on-a-reused-sampler", "detail": f"{where}: second fresh run on the same sampler object: reported {rep2}; the likelihood was asked for {rows_total} points since the sampler was made, {rows_total - rows_before} of them in the second run"})
+            c2 = out["probe"].c17
+            if c2["missing_prior"] or c2["len_mismatch"] or c2["value_mismatch"]:
+                viol.append({"mech": "C17/carried-prior-wrong-on-a-reused-sampler", "detail": f"{where}: {c2} {out['probe'].c17_witness}"})
+        elif not isinstance(again.exc, boundary.DegenerateWorkload) and not boundary._collapsed(out["aspire"], again.exc):
+            raise again.exc
     if "resumed" in out:
         r = out["resumed"]
         judge_probe(r["probe"], r["reported"], where + f" [resumed from iteration {r['from_iteration']}]", viol, counters)
